@@ -136,6 +136,7 @@ func cmdCheck(args []string) {
 	}
 	prelude := w.smt.Prelude()
 	rep.prelude = prelude
+	altWorld = w
 	solveAll(rep.vcs, prelude, filepath.Join(outDir, "smt"), timeout, seed, 16, two)
 	// bounded stand-ins
 	rep.bounded = runBounded(w, prop, tier, seed, replayDir)
@@ -229,14 +230,25 @@ func (rep *Report) finish(evFile string) int {
 	var pend []*pending
 	var tests []overlayTest
 	// probes of known findings of this property
-	probeIdx := map[string]int{}
+	probeName := map[*KnownFinding]string{}
 	for i := range known.Findings {
 		kf := &known.Findings[i]
-		if kf.Property != rep.prop || kf.Status != "known" || kf.Probe == "" {
+		if kf.Status != "known" || kf.Probe == "" {
+			continue
+		}
+		// a finding recorded under another property is honoured when the same obligation is
+		// part of this property's check as well (the obligation name identifies it)
+		relevant := kf.Property == rep.prop
+		for _, vc := range failed {
+			if obligationMatches(kf.Obligation, vc.Name) {
+				relevant = true
+			}
+		}
+		if !relevant {
 			continue
 		}
 		name := fmt.Sprintf("VerifProbe%d", i)
-		probeIdx[kf.ID] = i
+		probeName[kf] = name
 		body := fmt.Sprintf("\t\tpresent := false\n%s\n\t\tif present {\n\t\t\tfmt.Printf(\"VERIF-RESULT %s fail defect-present\\n\")\n\t\t} else {\n\t\t\tfmt.Printf(\"VERIF-RESULT %s pass defect-absent\\n\")\n\t\t}\n", kf.Probe, name, name)
 		tests = append(tests, overlayTest{Name: name, Body: body})
 	}
@@ -244,7 +256,7 @@ func (rep *Report) finish(evFile string) int {
 		p := &pending{vc: vc}
 		for k := range known.Findings {
 			kf := &known.Findings[k]
-			if kf.Property == rep.prop && kf.Status == "known" && obligationMatches(kf.Obligation, vc.Name) {
+			if kf.Status == "known" && obligationMatches(kf.Obligation, vc.Name) && (p.kf == nil || kf.Property == rep.prop) {
 				p.kf = kf
 			}
 		}
@@ -297,7 +309,7 @@ func (rep *Report) finish(evFile string) int {
 		vc := p.vc
 		if p.kf != nil {
 			// expected failure: confirm the recorded witness still shows the defect
-			name := fmt.Sprintf("VerifProbe%d", probeIdx[p.kf.ID])
+			name := probeName[p.kf]
 			v := verdicts[name]
 			if p.kf.Probe == "" || v == "fail" || v == "panic" {
 				if !knownSeen[p.kf.ID+vc.Name] {
